@@ -67,8 +67,8 @@ func c08Gen(rt *rapid.T) wProg {
 		return gPick(rt, pool, "topic")
 	}
 	anyOp := func() wOp {
-		s := rapid.IntRange(0, len(p.Sess)-1).Draw(rt, "s")
-		switch x := rapid.IntRange(0, 99).Draw(rt, "opk"); {
+		s := gInt(rt, 0, len(p.Sess)-1, "s")
+		switch x := gInt(rt, 0, 99, "opk"); {
 		case x < 18:
 			return wOp{K: "pub", S: s, T: topicFor(s)}
 		case x < 27:
@@ -83,9 +83,9 @@ func c08Gen(rt *rapid.T) wProg {
 				actor = 0
 			}
 			return wOp{K: "set", S: actor, T: gPick(rt, []string{"g0", "g0", "p1"}, "t"), A: "given",
-				U: rapid.IntRange(1, 3).Draw(rt, "target"), B: gPick(rt, gGivenModes, "given")}
+				U: gInt(rt, 1, 3, "target"), B: gPick(rt, gGivenModes, "given")}
 		case x < 54:
-			return wOp{K: "del", S: 0, T: "g0", A: "sub", U: rapid.IntRange(1, 3).Draw(rt, "target")}
+			return wOp{K: "del", S: 0, T: "g0", A: "sub", U: gInt(rt, 1, 3, "target")}
 		case x < 61:
 			return wOp{K: "set", S: s, T: topicFor(s), A: gPick(rt, []string{"public", "private", "private", "defacs", "trusted"}, "what"),
 				B: gPick(rt, []string{"a", "b", "JRWPS", "JRW", "␡"}, "val")}
@@ -96,10 +96,10 @@ func c08Gen(rt *rapid.T) wProg {
 		case x < 68:
 			return wOp{K: "set", S: s, T: topicFor(s), A: "tags", X: gPick(rt, [][]string{{"alpha"}, {"alpha", "beta"}, {}, {"gamma", "Delta "}}, "tags")}
 		case x < 76:
-			lo := rapid.IntRange(1, 4).Draw(rt, "lo")
+			lo := gInt(rt, 1, 4, "lo")
 			return wOp{K: "del", S: s, T: topicFor(s), A: "msg", F: gPct(rt, 50), R: [][2]int{{lo, gPick(rt, []int{0, lo + 1, lo + 2, lo + 3}, "hi")}}}
 		case x < 84:
-			return wOp{K: "note", S: s, T: topicFor(s), A: gPick(rt, []string{"read", "recv"}, "what"), N: rapid.IntRange(1, 4).Draw(rt, "seq")}
+			return wOp{K: "note", S: s, T: topicFor(s), A: gPick(rt, []string{"read", "recv"}, "what"), N: gInt(rt, 1, 4, "seq")}
 		case x < 87:
 			return wOp{K: "get", S: s, T: topicFor(s), A: gPick(rt, []string{"desc", "sub", "data", "del", "tags"}, "what")}
 		case x < 89:
@@ -108,12 +108,12 @@ func c08Gen(rt *rapid.T) wProg {
 			return wOp{K: "pub", S: s, T: topicFor(s)}
 		}
 	}
-	n := rapid.IntRange(3, 14).Draw(rt, "nops")
+	n := gInt(rt, 3, 14, "nops")
 	for i := 0; i < n; i++ {
-		switch x := rapid.IntRange(0, 99).Draw(rt, "ctl"); {
+		switch x := gInt(rt, 0, 99, "ctl"); {
 		case x < 4:
 			// self-ban, then come back without naming a mode (the server picks one)
-			s := rapid.IntRange(1, len(p.Sess)-1).Draw(rt, "s")
+			s := gInt(rt, 1, len(p.Sess)-1, "s")
 			p.Ops = append(p.Ops, wOp{K: "set", S: s, T: "g0", A: "mode", B: "N"})
 			if gPct(rt, 50) {
 				p.Ops = append(p.Ops, wOp{K: "sub", S: s, T: "g0"})
@@ -122,25 +122,25 @@ func c08Gen(rt *rapid.T) wProg {
 			}
 		case x < 7:
 			// ownership offered but not (yet) accepted, then the topic is loaded again
-			p.Ops = append(p.Ops, wOp{K: "set", S: 0, T: "g0", A: "given", U: rapid.IntRange(1, 2).Draw(rt, "heir"), B: gPick(rt, []string{"JRWPASDO", "JRWPSO"}, "grant")},
+			p.Ops = append(p.Ops, wOp{K: "set", S: 0, T: "g0", A: "given", U: gInt(rt, 1, 2, "heir"), B: gPick(rt, []string{"JRWPASDO", "JRWPSO"}, "grant")},
 				wOp{K: gPick(rt, []string{"reload", "restart"}, "how"), T: "g0"})
 			p.Ops = append(p.Ops, wOp{K: "get", S: 0, T: "g0", A: "tags"}, wOp{K: "set", S: 0, T: "g0", A: "tags", X: []string{"alpha"}})
 		case x < 10:
 			// a store failure in the middle of a request which makes two writes
-			s := rapid.IntRange(0, len(p.Sess)-1).Draw(rt, "s")
+			s := gInt(rt, 0, len(p.Sess)-1, "s")
 			v := gPick(rt, []string{"a", "b", "c"}, "val")
-			p.Ops = append(p.Ops, wOp{K: "fault", N: rapid.IntRange(1, 2).Draw(rt, "k")},
+			p.Ops = append(p.Ops, wOp{K: "fault", N: gInt(rt, 1, 2, "k")},
 				wOp{K: "set", S: s, T: gPick(rt, []string{"g0", "g0", "me"}, "dt"), A: "desc", H: map[string]any{"public": map[string]any{"fn": v}, "private": map[string]any{"c": v}}})
 		case x < 72:
 			p.Ops = append(p.Ops, anyOp())
 		case x < 84:
-			p.Ops = append(p.Ops, wOp{K: "fault", N: rapid.IntRange(1, 6).Draw(rt, "k")}, anyOp())
+			p.Ops = append(p.Ops, wOp{K: "fault", N: gInt(rt, 1, 6, "k")}, anyOp())
 		case x < 90:
 			p.Ops = append(p.Ops, wOp{K: "reload", T: gPick(rt, []string{"g0", "g0", "p1"}, "rt")})
 		case x < 94:
 			p.Ops = append(p.Ops, wOp{K: "restart"})
 		case x < 97:
-			s := rapid.IntRange(0, len(p.Sess)-1).Draw(rt, "s")
+			s := gInt(rt, 0, len(p.Sess)-1, "s")
 			p.Ops = append(p.Ops, wOp{K: "disc", S: s}, wOp{K: "reconn", S: s})
 		default:
 			p.Ops = append(p.Ops, wOp{K: "tick", N: gPick(rt, []int{50, 1000, 5500}, "ms")})
